@@ -1320,14 +1320,34 @@ func (c *Ctx) checkInputKindBlind() {
 	c.ok("input-kind|summary", "", "", fmt.Sprintf("%d calls examined: no input is asked for its size or position, none is asserted to be seekable or a file", n))
 }
 
+// inputSelector: the one function of the command package that opens the FILE argument or takes standard input:
+// readFileOrStdin, or - when that was merged into its only caller - readFileOrStdinFromArgs.
+func (c *Ctx) inputSelector() *ssa.Function {
+	if fn := c.fn("cmd", "readFileOrStdin"); fn != nil {
+		return fn
+	}
+	if fn := c.fn("cmd", "readFileOrStdinFromArgs"); fn != nil {
+		for _, ci := range callsIn(fn) {
+			if calleeName(ci.Common()) == "os.Open" {
+				return fn
+			}
+		}
+	}
+	return nil
+}
+
 func ruleIOLayer(c *Ctx) {
 	c.checkNoSingleRead()
 	c.checkInputKindBlind()
+	selector := "cmd.readFileOrStdin"
+	if fn := c.inputSelector(); fn != nil {
+		selector = fname(fn)
+	}
 	allowed := map[string]map[string]string{
-		"os.Stdin":    {"cmd.readFileOrStdin": "the one place that selects stdin"},
+		"os.Stdin":    {selector: "the one place that selects stdin"},
 		"os.Stdout":   {"cmd.getOutput": "the one place that selects stdout"},
 		"os.Stderr":   {"cmd.rootCmd.PersistentPreRun": "logger set-up"},
-		"os.Open":     {"cmd.readFileOrStdin": "FILE argument", "util.OpenAndParse": "dictionary files"},
+		"os.Open":     {selector: "FILE argument", "util.OpenAndParse": "dictionary files"},
 		"os.Create":   {"cmd.getOutput": "-o file"},
 		"fmt.Print":   {"cmd.midiCmdPortIn.RunE": "midi port listing (not a data command)", "cmd.midiCmdPortOut.RunE": "midi port listing (not a data command)", "input/ast.": "generated parser trace (judged by DEBUGOUT)"},
 		"os.ReadFile": {}, "os.WriteFile": {}, "os.OpenFile": {}, "cobra.Out": {},
@@ -1395,7 +1415,7 @@ func ruleIOLayer(c *Ctx) {
 		})
 	}
 	// readFileOrStdin: every branch hands its reader to the same callback parameter
-	if fn := c.fn("cmd", "readFileOrStdin"); fn != nil {
+	if fn := c.inputSelector(); fn != nil {
 		ncalls := 0
 		sameCb := true
 		for _, ci := range callsIn(fn) {
